@@ -574,7 +574,7 @@ func GoNamed(name string, daemon bool, f func()) {
 		t.Name = fmt.Sprintf("T%d", id)
 	}
 	x.wg.Add(1)
-	go x.run(t, f) // a real go statement: parent happens-before child, as in the program under test
+	spawn(func() { x.run(t, f) }) // a real go statement (race builds: a pooled goroutine fed through a channel): parent happens-before child, as in the program under test
 }
 
 // MarkSpawnedSinceDaemon marks every thread created since thread count n as a daemon
@@ -705,7 +705,7 @@ func Run(prefix []int, horizon int, quick bool, body func()) *Exec {
 	*t = Thread{ID: 0, Name: "main", wake: make(chan struct{}, 1), status: 1}
 	x.nthr = 1
 	x.wg.Add(1)
-	go x.run(t, body)
+	spawn(func() { x.run(t, body) })
 	t.wake <- struct{}{} // visible start
 	<-x.done
 	// tear down: wake every parked thread with the abort flag set
@@ -719,6 +719,7 @@ func Run(prefix []int, horizon int, quick bool, body func()) *Exec {
 		}
 	}
 	x.wg.Wait()
+	releasePool()
 	X = nil
 	return x
 }
